@@ -136,11 +136,13 @@ def queryLeaves (v : Val) : Items :=
 
 /-- The rebinder dictionary `get_rebind_dict(fn, x)` (symbolic/base.py) for the rebinder that
 replaces every int leaf `n` by `n + 1` and keeps everything else: keyed by `str(path)`. -/
+def intBump : Path × Val → Option (Path × Val)
+  | (p, .leaf (.int z)) => some (p, .leaf (.int (z + 1)))
+  | _ => none
+
 def rebindInts (v : Val) : Items :=
-  (visitsPre v []).foldl
-    (fun acc pv => match pv.2 with
-      | .leaf (.int z) => Assoc.set acc (.s (pathStr pv.1)) (.leaf (.int (z + 1)))
-      | _ => acc) []
+  ((visitsPre v []).filterMap intBump).foldl
+    (fun acc pv => Assoc.set acc (.s (pathStr pv.1)) pv.2) []
 
 /-! ### flatten -/
 
